@@ -1,15 +1,16 @@
 """C16 template application edits exactly what the template names.
 
-proof      : coq/props/C16.v (get_deleted specification: refuted for the unchanged code, proved for the minimally
-             repaired function; frame / freshness / identity theorems for the structural part of _patcher;
-             fix_mapping_overlap disjointness)
-tie        : BaseReactor._get_deleted, BaseReactor._patcher (structure, not stereo) and fix_mapping_overlap are run on real
-             Transformer / Reactor objects and compared with the Coq model evaluated by vm_compute
+proof      : coq/props/C16.v (get_deleted specification proved in full for the code after fix: b90326c; frame / freshness /
+             named atoms and bonds / identity theorems for the structural part of _patcher; fix_mapping_overlap disjointness)
+tie        : BaseReactor._get_deleted (result AND the local sets `delete` / `keep`, read from the frame of the real call),
+             BaseReactor._patcher (structure, not stereo) and fix_mapping_overlap are run on real Transformer / Reactor
+             objects and compared with the Coq model evaluated by vm_compute
 search     : independent oracles on the real code (connected components by union-find / RDKit, identity templates,
              valence, unique numbers, renumbering / reactant order independence)
 """
 import itertools
 import random
+import sys
 from functools import reduce
 from operator import or_
 
@@ -22,11 +23,8 @@ from coqfmt import zraw, b, lst, opt, tup
 
 replay = common.generic_replay
 
-# Which model function the real BaseReactor._get_deleted is compared with (the ONLY switch):
-#   'get_deleted'        = the unchanged code (shared global_seen; known finding `get-deleted-global-seen`)
-#   'get_deleted_fixed'  = the minimally repaired function (use after the fix: commit landed in /repo)
+# the model function the real BaseReactor._get_deleted is compared with
 MODEL_FUNCTION = 'get_deleted'
-KNOWN_KEY = 'get-deleted-global-seen'
 
 EXN = {'KeyError': 'KeyError', 'ValueError': 'ValueError', 'IndexError': 'IndexError', 'TypeError': 'TypeError',
        'StopIteration': 'StopIteration', 'AttributeError': 'AttributeError'}
@@ -99,32 +97,6 @@ def oracle_deleted_rdkit(bonds, D, K):
     return res
 
 
-def unchanged_algorithm(bonds, order, remain):
-    """the algorithm of the unchanged _get_deleted with the iteration order of `to_delete` made explicit.  Used ONLY to
-    classify a disagreement between the real code and the oracle as the recorded finding (same wrong answer)."""
-    to_delete = set(order)
-    delete, global_seen = set(), set()
-    for x in order:
-        for n in bonds[x]:
-            if n in global_seen or n in remain:
-                continue
-            seen = {n}
-            global_seen.add(n)
-            stack = [y for y in bonds[n] if y not in global_seen]
-            while stack:
-                current = stack.pop()
-                if current in remain:
-                    break
-                if current in to_delete:
-                    continue
-                seen.add(current)
-                global_seen.add(current)
-                stack.extend([y for y in bonds[current] if y not in global_seen])
-            else:
-                delete.update(seen)
-    return to_delete | delete
-
-
 # ---------------------------------------------------------------------------------------------------------------------
 # real objects
 
@@ -174,6 +146,8 @@ class Batch:
         self.names = {}
         self.cases = []
         self.meta = []
+        self.ctx = []
+        self.unobservable = 0
 
     def define(self, kind, term):
         if term not in self.names:
@@ -183,9 +157,10 @@ class Batch:
             self.defs.append(f'Definition {name} : {ty} := {term}.')
         return self.names[term]
 
-    def add(self, expr, meta):
+    def add(self, expr, meta, ctx=None):
         self.cases.append(expr)
         self.meta.append(meta)
+        self.ctx.append(ctx)
 
     def run(self, name):
         return coqcases.run_cases(name, 'Graph Reactor', self.cases, extra='\n'.join(self.defs))
@@ -198,23 +173,54 @@ def bonds_of(mol):
 # ---------------------------------------------------------------------------------------------------------------------
 # correspondence 1: BaseReactor._get_deleted
 
+def traced_get_deleted(t, mol, mapping):
+    """the real call, with the local sets `delete` and `keep` read from its frame when it returns (no patching of /repo).
+    returns (result or None, exception or None, (delete, keep) or None)"""
+    from chython.reactor.base import BaseReactor
+    code = BaseReactor._get_deleted.__code__
+    box = {}
+
+    def local(frame, event, arg):
+        if event == 'return' and arg is not None:
+            loc = frame.f_locals
+            if 'delete' in loc and 'keep' in loc:
+                box['sets'] = (set(loc['delete']), set(loc['keep']))
+        return local
+
+    def tracer(frame, event, arg):
+        return local if frame.f_code is code else None
+    old = sys.gettrace()
+    sys.settrace(tracer)
+    try:
+        return t._get_deleted(mol, mapping), None, box.get('sets')
+    except Exception as e:
+        return None, e, None
+    finally:
+        sys.settrace(old)
+
+
 def gd_case(ck, batch, t, mol, mapping, tag, describe):
-    """run the real method, record the Coq case, and compare with the oracle"""
+    """run the real method, record the Coq case (result + the intermediate sets), and compare with the oracle"""
     bonds = bonds_of(mol)
     try:
         to_del, order = observed_order(t, mapping)
     except KeyError:
         to_del, order = sorted(t._to_delete), None
-    try:
-        got = t._get_deleted(mol, dict(mapping))
-        res = 'Ok ' + zl(sorted(got))
-    except Exception as e:
-        got = None
-        res = exn(e)
+    got, err, sets = traced_get_deleted(t, mol, dict(mapping))
+    res = 'Ok ' + zl(sorted(got)) if err is None else exn(err)
+    if got is not None and t._to_delete and sets is None:
+        ck.count('get_deleted:locals-not-observable')
+        batch.unobservable += 1
+    sets_term = 'None' if sets is None else f'(Some ({zl(sorted(sets[0]))}, {zl(sorted(sets[1]))}))'
     g = batch.define('g', coqmol.graph_term(bonds))
-    batch.add(f'zlist_res_eqb ({MODEL_FUNCTION} {g} {pairs(mapping)} {zl(to_del)}) ({res})',
-              {'kind': tag, 'input': describe, 'mapping': dict(mapping), 'to_delete_pattern_atoms': to_del, 'observed': res})
+    batch.add(f'gd_case_eqb {g} {pairs(mapping)} {zl(to_del)} ({res}) {sets_term}',
+              {'kind': tag, 'input': describe, 'mapping': dict(mapping), 'to_delete_pattern_atoms': to_del, 'observed': res,
+               'observed_delete_keep': None if sets is None else (sorted(sets[0]), sorted(sets[1]))},
+              ctx=(t, mol, dict(mapping), describe))
     ck.count(f'get_deleted:{tag}:' + ('ok' if got is not None else res))
+    if sets is not None:
+        ck.count('get_deleted:walks:' + ('none' if not sets[0] and not sets[1] else 'delete+keep' if sets[0] and sets[1] else
+                                         'delete' if sets[0] else 'keep'))
     nontrivial = got is not None and order is not None and len(got) > len(order)
     ck.case(('gd', tag, describe, tuple(sorted(mapping.items())), tuple(to_del)), nontrivial=nontrivial)
     if got is not None and order is not None and all(x in bonds for x in mapping.values()):
@@ -237,11 +243,7 @@ def compare_with_oracle(ck, bonds, order, D, K, got, exp, describe, mapping, t, 
         replay_py = (f"from chython import smiles, smarts\nfrom chython.reactor import Transformer\n"
                      f"t = Transformer(smarts({pat!r}), smarts({str(t._replacement)!r}))\n"
                      f"print(sorted(t._get_deleted(smiles({smi!r}), {mapping!r})), 'expected', {sorted(exp)!r})")
-    if unchanged_algorithm(bonds, order, K) == got:
-        # the recorded defect: same wrong answer as the unchanged algorithm (global_seen shared between walks)
-        key = KNOWN_KEY
-    else:
-        key = f'get-deleted:{describe}:{sorted(mapping.items())}'
+    key = f'get-deleted:{describe}:{sorted(mapping.items())}:{sorted(D)}'
     ck.counterexample(key, what, {'structure': describe, 'bonds': bonds, 'mapping': mapping, 'to_delete': sorted(D), 'kept': sorted(K)},
                       sorted(got), sorted(exp), oracle_name, replay_py=replay_py)
     return False
@@ -349,15 +351,55 @@ def corr_get_deleted(ck):
     gd_case(ck, batch, any_transformer(2, ()), mol, {1: 5, 2: 2}, 'malformed', 'smiles:C1N2CC1C2')
     gd_case(ck, batch, any_transformer(2, (1, 2)), mol, {1: 5, 2: 2}, 'malformed', 'smiles:C1N2CC1C2')
     ok, failing, log = batch.run('c16gd')
-    ck.oblige(f'correspondence: BaseReactor._get_deleted == Coq {MODEL_FUNCTION} (sorted result / exception)', ok and not failing,
+    ck.oblige(f'correspondence: BaseReactor._get_deleted == Coq {MODEL_FUNCTION} (sorted result / exception) and its local sets '
+              '`delete`, `keep` == Coq get_deleted_sets', ok and not failing,
               'correspondence', log or str([batch.meta[i] for i in failing[:5]]))
+    ck.oblige('the local sets `delete` and `keep` of BaseReactor._get_deleted are observable in every call that reaches the loops',
+              batch.unobservable == 0, 'correspondence', f'{batch.unobservable} calls without observable locals')
     ck.extra['get_deleted_cases'] = len(batch.cases)
     ck.extra['get_deleted_model'] = MODEL_FUNCTION
     ck.sample({'model_call': batch.cases[len(batch.cases) // 2][:300], 'meta': repr(batch.meta[len(batch.cases) // 2])[:300]})
-    if not ok or failing:
-        ck.unchecked(f'correspondence Reactor.{MODEL_FUNCTION} vs chython/reactor/base.py:_get_deleted', log[-1500:],
+    if not ok or failing or batch.unobservable:
+        directed_get_deleted(ck, batch, failing)
+        ck.unchecked(f'correspondence Reactor.{MODEL_FUNCTION} vs chython/reactor/base.py:_get_deleted',
+                     log[-1500:] or (f'{batch.unobservable} calls: locals delete/keep not found in the frame' if batch.unobservable and not failing else ''),
                      [repr(batch.meta[i]) for i in failing[:20]])
-    return ok and not failing
+    return ok and not failing and not batch.unobservable
+
+
+def directed_get_deleted(ck, batch, failing):
+    """the correspondence disagreed: look for a concrete failing input of the REAL code on and around the disagreeing cases
+    (same graph: the disagreeing match, then other matched sets and to-delete subsets) with the component oracle"""
+    rng = random.Random(f'{ck.seed}:c16gd-directed')
+    n = 0
+    for i in failing[:40]:
+        if batch.ctx[i] is None:
+            continue
+        t, mol, mapping, describe = batch.ctx[i]
+        bonds = bonds_of(mol)
+        nodes = list(bonds)
+        for j in range(80 if ck.tier == 'quick' else 800):
+            if j == 0:
+                tt, mp = t, mapping
+            else:
+                r = rng.randint(1, min(5, len(nodes)))
+                matched = rng.sample(nodes, r)
+                dele = tuple(sorted(rng.sample(range(1, r + 1), rng.randint(1, r))))
+                tt, mp = any_transformer(r, dele), dict(zip(range(1, r + 1), matched))
+            if not tt._to_delete or not all(x in mp for x in tt._to_delete) or not all(x in bonds for x in mp.values()):
+                continue
+            try:
+                got = tt._get_deleted(mol, dict(mp))
+            except Exception as e:
+                ck.counterexample(f'get-deleted-raises:{describe}:{sorted(mp.items())}', f'_get_deleted raises {type(e).__name__} on a well-formed match: {describe}',
+                                  {'structure': describe, 'bonds': bonds, 'mapping': mp}, repr(e), 'a set of atoms', 'well-formed input')
+                continue
+            _, order = observed_order(tt, mp)
+            D = set(order)
+            K = set(mp.values()) - D
+            n += 1
+            compare_with_oracle(ck, bonds, order, D, K, got, oracle_deleted(bonds, D, K), describe, dict(mp), tt, 'union-find components (directed search)')
+    ck.count('directed-search:get_deleted', n)
 
 
 # ---------------------------------------------------------------------------------------------------------------------
@@ -416,6 +458,7 @@ def make_template(pat, rep, **kw):
 def patch_case(ck, batch, t, structure, mapping, tag, describe):
     """call the real _patcher (ring/tautomer fixing off: it is not part of the structural model) and record the Coq case"""
     mapping = dict(mapping)
+    mapping0 = dict(mapping)
     try:
         to_del, _ = observed_order(t, mapping) if t._to_delete else ([], None)
     except KeyError:
@@ -432,7 +475,7 @@ def patch_case(ck, batch, t, structure, mapping, tag, describe):
         ok = False
         new = None
     batch.add(f'patch_res_eqb (patcher_with {MODEL_FUNCTION} {m_term} {before} {zl(to_del)} {t_term}) ({res})',
-              {'kind': tag, 'input': describe, 'observed': res[:200]})
+              {'kind': tag, 'input': describe, 'observed': res[:200]}, ctx=(t, structure, dict(mapping0), describe))
     ck.count(f'patcher:{tag}:' + ('ok' if ok else res))
     ck.case(('patch', tag, describe, before), nontrivial=ok)
     return new
@@ -518,8 +561,40 @@ def corr_patcher(ck):
     if batch.cases:
         ck.sample({'model_call': batch.cases[0][:300], 'meta': repr(batch.meta[0])[:300]})
     if not ok or failing:
+        directed_patcher(ck, batch, failing)
         ck.unchecked('correspondence Reactor.patcher vs chython/reactor/base.py:_patcher', log[-1500:], [repr(batch.meta[i]) for i in failing[:20]])
     return ok and not failing
+
+
+def directed_patcher(ck, batch, failing):
+    """the correspondence disagreed: apply the property-level read-out (check_product: atom set against the component oracle,
+    frame, requested values, no extra bonds) to the real products of the disagreeing cases and of every other match of the
+    same template on the same structure"""
+    n = 0
+    for i in failing[:40]:
+        if batch.ctx[i] is None:
+            continue
+        t, structure, mapping0, describe = batch.ctx[i]
+        maps = [dict(mapping0)]
+        if hasattr(t, '_pattern'):
+            try:
+                maps += [dict(x) for x in itertools.islice(t._pattern.get_mapping(structure, automorphism_filter=False), 20)]
+            except Exception:
+                pass
+        for mp in maps:
+            if not all(x in structure._atoms for x in mp.values()) or any(x not in mp for x in (t._to_delete or ())):
+                continue
+            try:
+                prod = t._patcher(structure, dict(mp))
+            except Exception:
+                continue
+            n += 1
+            try:
+                check_product(ck, t, structure, mp, prod, describe, 'directed search after a patcher correspondence failure')
+            except Exception as e:     # the read-out itself could not index the product: that is a malformed product
+                ck.counterexample(f'product-malformed:{describe}:{sorted(mp.items())}', f'product of _patcher cannot be read out ({type(e).__name__}: {e})',
+                                  {'structure': describe, 'mapping': mp}, repr(e), 'a well-formed product', 'template read-out')
+    ck.count('directed-search:patcher', n)
 
 
 # ---------------------------------------------------------------------------------------------------------------------
@@ -625,10 +700,7 @@ def check_product(ck, t, mol, mapping0, prod, smi, tname, frame=True):
           f"t = Transformer(smarts({str(getattr(t, '_pattern', ''))!r}), smarts({str(rep)!r}))\nprint([str(x) for x in t(smiles({smi!r}))])")
 
     def bad(key, what, obs, exp):
-        if key == 'atoms' and unchanged_algorithm(bonds, observed_order(t, mapping0)[1], K) - D == (set(mol) - set(prod)) - D:
-            k = KNOWN_KEY      # the product lacks / keeps exactly what the recorded _get_deleted defect explains
-        else:
-            k = f'{key}:{tname}:{smi}:{sorted(mapping0.items())}'
+        k = f'{key}:{tname}:{smi}:{sorted(mapping0.items())}'
         ck.counterexample(k, f'{what} ({tname} on {smi})', {'smiles': smi, 'template': tname, 'mapping': mapping0}, obs, exp,
                           'union-find components of the remainder + template read-out', replay_py=rp)
     if set(prod) != expect:
@@ -744,25 +816,10 @@ def search_templates(ck):
                 c = sorted(str(x) for x in t_def(m2))
             except Exception:
                 continue
-            if set(a) != set(c) and not known_explains(t_def, m, m2):
+            if set(a) != set(c):
                 ck.counterexample(f'renumbering:{tname}:{smi}', 'product set depends on the atom numbering of the reactant',
                                   {'smiles': smi, 'template': tname, 'numbering': list(m2._atoms)}, c, a, 'same molecule renumbered')
     ck.extra['products_checked'] = n_prod
-
-
-def known_explains(t, m, m2):
-    """True when the two numberings differ only because _get_deleted (recorded finding) disagrees with the oracle on one of them"""
-    for mol in (m, m2):
-        bonds = bonds_of(mol)
-        for mp in t._pattern.get_mapping(mol, automorphism_filter=True):
-            mp = dict(mp)
-            if not t._to_delete:
-                continue
-            D = {mp[x] for x in t._to_delete}
-            K = set(mp.values()) - D
-            if t._get_deleted(mol, mp) != oracle_deleted(bonds, D, K):
-                return True
-    return False
 
 
 def search_identity(ck):
@@ -875,12 +932,11 @@ def run(ck):
         'coq/model/Reactor.v is a hand-written restatement of _get_deleted, of the structural part of _patcher and of fix_mapping_overlap; '
         'tie = correspondence on every graph with <= 4 atoms x matched set x to-delete subset, random cyclic graphs, corpus molecules, '
         'template matches and malformed mappings',
-        'the iteration order of the Python set to_delete is an input of the model (the runner passes the observed order); the theorem for '
-        'the repaired function holds for every order',
+        'the iteration order of the Python set to_delete is an input of the model (the runner passes the observed order); the theorems '
+        'hold for every order (C16_get_deleted_order_independent)',
+        'the local sets delete / keep of _get_deleted are read from the frame of the real call with sys.settrace and compared with the model',
         'stereo translation, calc_implicit, kekule/thiele inside _patcher and Reactor.__call__ product assembly are NOT modelled: search only',
-        f'_get_deleted is compared with the model function `{MODEL_FUNCTION}`' +
-        (' (the unchanged code, for which get_deleted_spec is REFUTED: known finding get-deleted-global-seen)' if MODEL_FUNCTION == 'get_deleted' else
-         ' (the repaired code, for which get_deleted_spec is PROVED)')]
+        f'_get_deleted is compared with the model function `{MODEL_FUNCTION}` (the code after fix: b90326c, for which get_deleted_spec is PROVED)']
     ck.extra['rule'] = ('correspondence: (graph, matched atoms, to-delete subset) exhaustively for <= 4 atoms, random graphs with 5..9 atoms incl. masked atoms, '
                         'bridged/corpus molecules with random connected matched sets; non-trivial = the call returned more atoms than the matched-and-unkept ones '
                         '(a fragment was deleted). patcher: synthetic templates covering each branch + every deprotection template x molecules x matches; '
